@@ -36,6 +36,8 @@ def make_ts(rng, kind=None):
                                "dip-hist", "dip-internal", "star"])
     if kind == "star":
         return star_ts(rng), kind
+    if kind == "star-big":   # many capped visits of one node: drives scale below TINY mid-loop
+        return star_ts(rng, n=rng.randint(25, 60), L=1000, trees=1, nmut=rng.randint(300, 600)), kind
     ploidy = 2 if kind.startswith("dip") else 1
     n = rng.randint(2, 5) if ploidy == 1 else rng.randint(1, 3)
     L = rng.choice([5, 20, 100])
@@ -47,12 +49,14 @@ def make_ts(rng, kind=None):
     return ts, kind
 
 
-def star_ts(rng, n=None, L=None, counts=None, trees=None):
-    """every edge joins a non-sample parent to a sample at time 0 (one parent per tree)"""
+def star_ts(rng, n=None, L=None, nmut=None, trees=None):
+    """every edge joins a non-sample parent to a sample at time 0 (one parent per tree);
+    nmut mutations at distinct integer positions, each on a random sample"""
     import tskit
     n = n or rng.randint(2, 6)
     trees = trees or rng.choice([1, 1, 2, 3])
     L = L or rng.choice([10, 100, 1000])
+    trees = min(trees, L)
     tables = tskit.TableCollection(L)
     for _ in range(n):
         tables.nodes.add_row(flags=tskit.NODE_IS_SAMPLE, time=0)
@@ -61,14 +65,9 @@ def star_ts(rng, n=None, L=None, counts=None, trees=None):
         p = tables.nodes.add_row(flags=0, time=1.0 + k)
         for c in range(n):
             tables.edges.add_row(brk[k], brk[k + 1], p, c)
-    used = set()
-    nm = rng.choice([0, 3, 10, 40]) if counts is None else sum(counts)
-    for m in range(nm):
-        x = rng.randint(0, L - 1)
-        if x in used:
-            continue
-        used.add(x)
-    for x in sorted(used):
+    nm = rng.choice([0, 3, 10, 40]) if nmut is None else nmut
+    used = sorted(set(rng.randint(0, L - 1) for _ in range(nm)))
+    for x in used:
         s = tables.sites.add_row(x, "0")
         tables.mutations.add_row(site=s, node=rng.randint(0, n - 1), derived_state="1")
     tables.sort()
@@ -78,7 +77,7 @@ def star_ts(rng, n=None, L=None, counts=None, trees=None):
 
 
 def make_opts(rng, ts=None, small_shape=None):
-    small = rng.random() < 0.4 if small_shape is None else small_shape
+    small = rng.random() < 0.6 if small_shape is None else small_shape
     return {
         "mutation_rate": rng.choice([1e-3, 1e-2, 0.1, 1.0]),
         "singletons_phased": rng.random() < 0.4,
@@ -92,7 +91,10 @@ def make_opts(rng, ts=None, small_shape=None):
 def make_case(rng, kind=None, small_shape=None):
     ts, kind = make_ts(rng, kind)
     opts = make_opts(rng, ts, small_shape)
-    if kind in ("star", "plain", "historical", "internal", "dip-hist"):
+    if kind == "star-big":
+        opts.update(max_shape=rng.choice([1.0001, 1.001, 1.01, 1.1]), mutation_rate=1e-2,
+                    iterations=rng.choice([1, 2]), regularise=rng.random() < 0.5)
+    if kind in ("star", "star-big", "plain", "historical", "internal", "dip-hist"):
         opts["singletons_phased"] = True   # singleton blocking needs contemporary diploid individuals
     elif rng.random() < 0.8:
         opts["singletons_phased"] = False
